@@ -26,10 +26,15 @@ pub(crate) fn format_docstring(docstring: String) -> String {
 
     let lines = &lines[start..end];
 
-    // Find minimum indentation (excluding first line if it's not empty)
+    // Only the docstring's real first line (the text right after the opening quotes) is
+    // exempt from the margin computation; if leading blank lines were dropped, the first
+    // remaining line is an ordinary indented line (same rule as inspect.cleandoc).
+    let first_line_exempt = start == 0;
+
+    // Find minimum indentation (excluding the first line, see above)
     let mut min_indent = usize::MAX;
     for (i, line) in lines.iter().enumerate() {
-        if i == 0 && !line.trim().is_empty() {
+        if i == 0 && first_line_exempt && !line.trim().is_empty() {
             continue; // First line indentation doesn't count
         }
 
@@ -46,7 +51,7 @@ pub(crate) fn format_docstring(docstring: String) -> String {
     // Dedent all lines
     let mut result = Vec::new();
     for (i, line) in lines.iter().enumerate() {
-        if i == 0 {
+        if i == 0 && first_line_exempt {
             result.push(line.trim().to_string());
         } else if line.trim().is_empty() {
             result.push(String::new());
